@@ -358,7 +358,7 @@ def dec(name, r):
 
 
 def stage_w(rep, rng, n):
-    calls, impl = [], []
+    calls, impl, sym = [], [], []
     for i in range(n):
         ce, add_res, plan_res, env, implicit = one_case(rng, rep)
         rep.case('w:' + json.dumps(ce), implicit or add_res[0] == 'err' or any(c[0][0] != 0 for c in ce))
@@ -371,7 +371,42 @@ def stage_w(rep, rng, n):
         calls.append(('install.plan', [ce, env.supports_destdir])); impl.append(plan_res)
         if i < 2:
             rep.sample({'stage': 'W:install', 'calls': ce, 'impl': repr(plan_res)[:600]})
-    return common.compare_model(rep, 'W:install', calls, impl, dec, vm_limit=60)
+        if plan_res[0] == 'ok':
+            sym.append(('install.run', [ce, '/d d', '/s', DEFAULT_IDIRS]))
+    dis = common.compare_model(rep, 'W:install', calls, impl, dec, vm_limit=60)
+    # model-level symmetry on the generated install sets (the hypothesis dirs_ok of C15_symmetry holds whenever
+    # the files of a directory lie inside it): removed paths = created paths, uninstall . install = identity
+    nsym = 0
+    for (name, arg), r in zip(sym, common.model_batch(sym)):
+        if r[0] != 0:
+            continue
+        v = r[1]
+        dests, removed, after = [common.d_str(x) for x in v[2]], [common.d_str(x) for x in v[3]], v[5]
+        inside = all(f[3] == [] or all(k[1][0] == f[1][0] and k[1][1][:len(f[1][1])] == f[1][1] and len(k[1][1]) > len(f[1][1])
+                                       for k in f[3][0]) for f in all_files(arg[0]))
+        if not inside:
+            rep.count('sym:files outside their directory')
+            continue
+        nsym += 1
+        if removed != dests or after or not all(d.startswith('/d d/') for d in dests):
+            rep.fail('model: uninstall does not remove exactly what install creates (%r vs %r, left %r)' % (removed, dests, after),
+                     {'obligation': 'model symmetry', 'calls': arg[0]}, found_input=False)
+    rep.stage('W:symmetry', cases=nsym)
+    return dis
+
+
+DEFAULT_IDIRS = [[2, ['opt', 'p'], False], [10, [], False], [11, ['bin'], False], [11, ['lib'], False], [10, ['include'], False],
+                 [10, ['share'], False], [15, ['man'], False]]
+
+
+def all_files(calls):
+    def walk(f):
+        yield f
+        for d in f[5]:
+            yield from walk(d)
+    for c in calls:
+        for f in c[1]:
+            yield from walk(f)
 
 
 # ----------------------------------------------------------------------------- system level
